@@ -70,6 +70,12 @@ BinEv ==
     /\ Check("C11:empirical_variance_is_scatter_over_n", Near(e.ev * e.n, e.m2, e.n + 2))
     /\ Check("C11:single_segment_has_zero_scatter", e.K # 1 \/ (e.m2 = 0 /\ e.ev = 0))
     /\ Check("C11:empirical_deviation_in_spectral_units", Near(Sq(e.ed), e.ev, 8 + e.ed \div 50000))
+    \* ---------------- C20: derived quantities are views of one estimate ----------------
+    /\ Check("C20:Gyx_and_Hyx_are_conjugates", Near(e.gyx[1], e.g[1], 2) /\ Near(e.gyx[2], -e.g[2], 2) /\ Near(e.hyx[1], e.h[1], 2) /\ Near(e.hyx[2], -e.h[2], 2))
+    /\ Check("C20:cf_is_magnitude_of_Hxy", Near(Sq(e.cfn), Sq(e.h[1]) + Sq(e.h[2]), 8))
+    /\ Check("C20:degree_phase_is_radian_phase_times_180_over_pi", Near(MulQ20(e.deg, QPI), 180 * e.rad, 100))
+    /\ Check("C20:cs_is_csd_times_enbw", Near(e.csn, MulQ20(e.csdn, e.enbw), 8))
+    /\ Check("C20:tf_is_Hxy_and_auto_quantities_are_None_for_cross_results", e.tfsame = 1 /\ e.nonek = 1)
 
 Swap ==
     LET e == Ev  r == Ref(e.j) IN
@@ -79,7 +85,10 @@ Swap ==
 
 Alone ==
     LET e == Ev  r == Ref(e.j) IN
-    Check("C09:auto_density_same_alone_or_in_pair", Near(e.gxx, IF e.ch = 1 THEN r.gxx ELSE r.gyy, 2))
+    /\ Check("C09:auto_density_same_alone_or_in_pair", Near(e.gxx, IF e.ch = 1 THEN r.gxx ELSE r.gyy, 2))
+    /\ Check("C20:asd_squared_is_psd", Near(e.asd2, e.psd, 2) /\ Near(e.psd, e.gxx, 1))
+    /\ Check("C20:ps_is_psd_times_enbw", Near(e.ps, MulQ20(e.psd, e.enbw), 8))
+    /\ Check("C20:cross_quantities_are_None_for_auto_results", e.nonek = 1)
 
 (* (c x, d y): Gxx c^2, Gyy d^2, Gxy c d, coherence unchanged, Hxy d/c *)
 Scale ==
